@@ -164,14 +164,7 @@ public:
     return *this;
   }
 
-  String& append(const String& str)
-  {
-    usize newLen = data->len + str.data->len;
-    detach(data->len, newLen);
-    Memory::copy((char*)data->str + data->len, str.data->str, str.data->len * sizeof(char));
-    ((char*)data->str)[data->len = newLen] = '\0';
-    return *this;
-  }
+  String& append(const String& str) {return append(str.data->str, str.data->len);} // (copes with a str that is attached to this string's own text)
 
   String& append(const char* str, usize len)
   {
@@ -206,15 +199,16 @@ public:
     }
     else
     {
+      usize capacity = otherData->len | 0x3;
+      Data* newData = (Data*)new char[(capacity + 1) * sizeof(char) + sizeof(Data)];
+      newData->str = (char*)((byte*)newData + sizeof(Data));
+      Memory::copy((char*)newData->str, otherData->str, otherData->len * sizeof(char)); // before the release: other may be attached to this string's own text
+      ((char*)newData->str)[newData->len = otherData->len] = '\0';
+      newData->ref = 1;
+      newData->capacity = capacity;
       if(data->ref && Atomic::decrement(data->ref) == 0)
         delete[] (char*)data;
-      usize capacity = otherData->len | 0x3;
-      data = (Data*)new char[(capacity + 1) * sizeof(char) + sizeof(Data)];
-      data->str = (char*)((byte*)data + sizeof(Data));
-      Memory::copy((char*)data->str, otherData->str, otherData->len * sizeof(char));
-      ((char*)data->str)[data->len = otherData->len] = '\0';
-      data->ref = 1;
-      data->capacity = capacity;
+      data = newData;
     }
     return *this;
   }
